@@ -24,17 +24,24 @@ pub fn push<T, A: Allocator>(v: &mut Vec<T, A>, x: T) {
     }
 }
 
-/// `<[T]>::sort_unstable`: insertion sort using the element type's own `Ord`
+/// `<[T]>::sort_unstable` for slices of at most `CAP` (= 4) elements: the optimal 5-comparator
+/// sorting network, each comparator guarded by `j < len` (missing elements act as +infinity, which
+/// a network keeps at the end).  Uses the element type's own `Ord`.  A loop-free model matters:
+/// an insertion sort over a symbolic length is unrolled to its bound by CBMC (55 inner iterations
+/// of an 8-byte comparison for a one-element vector was 70 % of all symbolic-execution steps).
 pub fn sort_unstable<T: Ord>(s: &mut [T]) {
     let n = s.len();
-    let mut i = 1;
-    while i < n {
-        let mut j = i;
-        while j > 0 && s[j - 1] > s[j] {
-            s.swap(j - 1, j);
-            j -= 1;
-        }
-        i += 1;
+    assert!(n <= CAP, "sort model: capacity bound exceeded");
+    cx(s, 0, 1, n);
+    cx(s, 2, 3, n);
+    cx(s, 0, 2, n);
+    cx(s, 1, 3, n);
+    cx(s, 1, 2, n);
+}
+#[inline(never)]
+fn cx<T: Ord>(s: &mut [T], i: usize, j: usize, n: usize) {
+    if j < n && s[i] > s[j] {
+        s.swap(i, j);
     }
 }
 
@@ -62,4 +69,42 @@ pub fn to_vec<T: Clone>(s: &[T]) -> Vec<T> {
 /// `alloc::fmt::format` in harnesses whose subject is not formatting
 pub fn format(_a: std::fmt::Arguments<'_>) -> String {
     String::new()
+}
+
+/// capacity of the string buffer handed out on first use
+pub const SCAP: usize = 64;
+
+/// `String::push_str` / `String::push` without `grow_amortized` on a symbolic length (same reason
+/// as `push`): fixed buffer, checked bound, byte-wise copy
+pub fn push_str(s: &mut String, t: &str) {
+    unsafe {
+        let v = s.as_mut_vec();
+        if v.capacity() == 0 {
+            std::ptr::write(v, Vec::with_capacity(SCAP));
+        }
+        let len = v.len();
+        let n = t.len();
+        assert!(len + n <= v.capacity(), "push_str model: capacity bound exceeded");
+        let src = t.as_bytes();
+        let dst = v.as_mut_ptr().add(len);
+        let mut i = 0;
+        while i < n {
+            std::ptr::write(dst.add(i), src[i]);
+            i += 1;
+        }
+        v.set_len(len + n);
+    }
+}
+pub fn push_char(s: &mut String, c: char) {
+    assert!((c as u32) < 0x80, "push model: ASCII only");
+    unsafe {
+        let v = s.as_mut_vec();
+        if v.capacity() == 0 {
+            std::ptr::write(v, Vec::with_capacity(SCAP));
+        }
+        let len = v.len();
+        assert!(len < v.capacity(), "push model: capacity bound exceeded");
+        std::ptr::write(v.as_mut_ptr().add(len), c as u8);
+        v.set_len(len + 1);
+    }
 }
